@@ -45,7 +45,7 @@ NOT_YET = {}
 PROPS["C16"] = dict(
     level="model_checking", leak_every=25, exhaustive=True,
     stages=lambda tier, seed: [
-        mc("seq", "MC_C16", "MC_C16_%s.cfg" % tier),
+        mc("seq", "MC_C16", "MC_C16_%s.cfg" % tier, expand=G.under_provider(4)),
         gen("walk", G.c16_walks(40 if tier == "quick" else 600, 300)),
     ],
     rule="all sequences of keyring mutators up to MaxLen (4 quick / 5 thorough) over an alphabet of 7 loads and "
@@ -69,13 +69,16 @@ PROPS["C15"] = dict(
         mc("cbsites", "MC_C15", "MC_C15_graph_clm.cfg", expand=G.c15_to_callbacks),
         gen("walk", G.c15_walks(60 if tier == "quick" else 1500, 200)),
     ],
-    rule="(graph) every reachable state of the map over names {a,b,c,r,n,o,l} x every operation of a 108-operation alphabet "
-         "(set INT/STR/BOOL/JSON obj, a second object carrying a real, a null, a nested object and an array, arr, malformed, scalar, NULL text; names a, b, empty, NULL; with and without "
-         "replace; get of each type; delete one/all), one implementation test per transition, on builder claims and "
-         "builder headers, and the same behaviours on the jwt_t inside a generate callback and a verify callback; "
-         "(seq) all sequences up to length 3 (quick) / 4 (thorough) over a 16-operation alphabet; (walk) seeded "
-         "random walks of 200 operations with 64-bit extremes. After every operation the whole header and claim "
-         "objects are read back and compared with the model. distinct = distinct script hashes.",
+    rule=
+         "(graph) every reachable state of the map over names {a,b,c,r,n,o,l} x every operation of a 108-operation "
+         "alphabet (set INT/STR/BOOL/JSON obj, a second object carrying a real, a null, a nested object and an array, a "
+         "third whose nested object has other keys (replace overwrites, never merges), arr, malformed, scalar, NULL "
+         "text; names a, b, empty, NULL; with and without replace; get of each type; delete one/all), one implementation"
+         " test per transition, on builder claims and builder headers, and the same behaviours on the jwt_t inside a "
+         "generate callback and a verify callback; (seq) all sequences up to length 3 (quick) / 4 (thorough) over a "
+         "16-operation alphabet; (walk) seeded random walks of 200 operations with 64-bit extremes. After every "
+         "operation the whole header and claim objects are read back and compared with the model. distinct = distinct "
+         "script hashes.",
     assumptions=ASSUME_COMMON,
     level_text="TLC explores the complete state graph of the typed-map specification (78 states, every operation "
                "from every state) and checks the map laws on it; each transition is replayed into libjwt at four "
@@ -89,13 +92,16 @@ PROPS["C15"] = dict(
 PROPS["C02"] = dict(
     level="model_checking", exhaustive=True,
     stages=lambda tier, seed: [mc("matrix", "MC_C02", "MC_C02_%s.cfg" % tier), gen("apiwalk", G.api_walks(300 if tier == "quick" else 20000, 60))],
-    rule="finite matrix enumerated by TLC from MC_C02: (A) configured alg x key (absent, or key type x alg attribute "
-         "incl. none and unknown) x {setkey, callback} on checker and builder; (B) every admitted checker "
-         "configuration x 23 header alg spellings (14 names, none/None/NONE, case and padding variants, unknown, "
-         "missing, non-string) x signature class {empty, garbage, valid under the configured key, HMAC under the "
-         "empty key, HMAC under the public PEM, valid under another key} x route {setkey, callback sets key+alg, "
-         "key only, alg only}; (C) builder configurations x routes -> generate. quick uses one key per family and "
-         "9 of 16 configured algs, thorough all. distinct = distinct cells (script hashes).",
+    rule=
+         "finite matrix enumerated by TLC from MC_C02: (A) configured alg x key (absent, or key type x alg attribute "
+         "incl. none, unknown and a family prefix such as HS) x {setkey, callback} on checker and builder; (B) every "
+         "admitted checker configuration x 37 header alg spellings (14 names, none/None/NONE, case and padding variants,"
+         " unknown, missing, non-string, near misses: family prefix, one more character, a NUL character inside, single "
+         "letters) x signature class {empty, garbage, valid under the configured key, genuine under the checker's own "
+         "algorithm whatever the header says, HMAC under the empty key, HMAC under the public PEM, valid under another "
+         "key} x route {setkey, callback sets key+alg, key only, alg only}; (C) builder configurations x routes -> "
+         "generate. quick uses one key per family and 9 of 16 configured algs, thorough all. distinct = distinct cells "
+         "(script hashes).",
     assumptions=ASSUME_COMMON,
     level_text="The space is finite and TLC enumerates it completely within the chosen key set; the reference "
                "outcome is shown to satisfy C02 on every cell, and every cell is executed against libjwt and judged "
@@ -110,12 +116,15 @@ PROPS["C02"] = dict(
 PROPS["C03"] = dict(
     level="model_checking", exhaustive=True,
     stages=lambda tier, seed: [mc("matrix", "MC_C03", "MC_C03_%s.cfg" % tier), gen("apiwalk", G.api_walks(300 if tier == "quick" else 20000, 60))],
-    rule="finite matrix from MC_C03: checker set-ups (key loaded but not set / set with or without explicit alg; key "
+    rule=
+         "finite matrix from MC_C03: checker set-ups (key loaded but not set / set with or without explicit alg; key "
          "with and without alg attribute) x callback {none, empty, sets key, sets alg, sets both, key + alg none} x "
-         "header alg {none, None, NONE, the matching algorithm, missing} x signature {empty, valid, garbage} x shape "
-         "{3 segments, 2 segments, 4 segments, 4 with empty last}; the key-less checker against every token class; "
-         "builder set-ups x the same callbacks -> generate. oct and RSA keys in quick, all key types in thorough. "
-         "distinct = distinct cells.",
+         "header alg {none, None, NONE, the matching algorithm, missing, each non-string JSON type, none followed by a "
+         "space or by a NUL character, the empty string, n} x signature {empty, valid, garbage} x shape {3 segments, 2 "
+         "segments, 4 segments, 4 with empty last}; the key-less checker against every token class; builder set-ups x "
+         "the same callbacks -> generate; the callback's life cycle (setcb, context-only setcb(NULL, ctx), setcb(NULL, "
+         "NULL) in seven orders) before a generate / verify on objects keyed only through the callback. oct and RSA keys"
+         " in quick, all key types in thorough. distinct = distinct cells.",
     assumptions=ASSUME_COMMON,
     level_text="Complete enumeration of the configuration x token-shape matrix on the specification (reference outcome "
                "satisfies C03 on every cell) and replay of every cell into libjwt; an accepted token must be signed "
@@ -129,14 +138,17 @@ PROPS["C03"] = dict(
 PROPS["C01"] = dict(
     level="model_checking", exhaustive=True,
     stages=lambda tier, seed: [mc("matrix", "MC_C01", "MC_C01_%s.cfg" % tier, expand=G.replicate(3 if tier == "quick" else 300))],
-    rule="matrix from MC_C01: (key, algorithm) pairs covering oct, RSA (PKCS1 and PSS, incl. an RSA-PSS typed key), "
-         "P-256/384/521, secp256k1, Ed25519, Ed448 x both providers x signature class {valid, non-canonical base64 of "
-         "the same bytes, empty, garbage of two lengths, not base64, duplicated, bit flipped at first/last/random "
-         "position, truncated by 1/2, extended by random/zero bytes, signed over header only / payload only / with "
-         "trailing dot / swapped segments / other text / the decoded JSON, by another key, by the same key under a "
-         "sibling algorithm, ES: r and s zero-extended to wider widths, DER; HS: HMAC under empty and all-zero keys} "
-         "+ header/payload altered after signing; each cell concretised 3 (quick) / 300 (thorough) times with "
-         "seed-drawn positions. Signatures are made by the driver's own signer. distinct = distinct cells x reps.",
+    rule=
+         "matrix from MC_C01: (key, algorithm) pairs covering oct, RSA (PKCS1 and PSS, incl. an RSA-PSS typed key), "
+         "P-256/384/521, secp256k1, Ed25519, Ed448, plus HS* pinned explicitly on RSA/EC/OKP public keys (admitted by "
+         "the setkey table, never verifiable) x both providers x signature class {valid, non-canonical base64 of the "
+         "same bytes, empty, garbage of two lengths, not base64, duplicated, bit flipped at first/last/random position, "
+         "truncated by 1/2, extended by random/zero bytes, signed over header only / payload only / with trailing dot / "
+         "swapped segments / other text / the decoded JSON, by another key, by the same key under a sibling algorithm, "
+         "ES: r and s zero-extended to wider widths, DER; HS: HMAC under empty and all-zero keys and, for public keys, "
+         "under the PEM text} + header/payload altered after signing; each cell concretised 3 (quick) / 300 (thorough) "
+         "times with seed-drawn positions. Signatures are made by the driver's own signer. distinct = distinct cells x "
+         "reps.",
     assumptions=ASSUME_COMMON + ["cryptography is treated as perfect: a mutated valid signature is assumed invalid (by construction, not by TLC)"],
     level_text="Exhaustive over the abstract cells (key class x algorithm x provider x signature/alteration class); "
                "within a cell bytes are sampled. Accepting any cell whose class is not 'valid signature by the "
@@ -149,12 +161,14 @@ PROPS["C01"] = dict(
 PROPS["C09"] = dict(
     level="model_checking", exhaustive=True,
     stages=lambda tier, seed: [mc("matrix", "MC_C09", "MC_C09_%s.cfg" % tier)],
-    rule="matrix from MC_C09: oct keys of length {0,1,16,31,32,33,47,48,49,63,64,65,100,160} (quick) / every length "
-         "0..160 (thorough) x HS256/384/512; RSA moduli of 512, 1024, 2040, 2047, 2048, 2056, 3072, 4096 bits x "
-         "RS/PS algorithms; P-256/384/521 and secp256k1 x every ES algorithm; Ed25519 and Ed448; each through "
-         "generate (private key), verify of the generated token and verify of a token signed by the driver's own "
-         "signer (public key), on OpenSSL and GnuTLS. Both directions are judged: below the floor never succeeds, "
-         "at or above it works. distinct = distinct cells.",
+    rule=
+         "matrix from MC_C09: oct keys of length {0,1,16,31,32,33,47,48,49,63,64,65,100,160} (quick) / every length "
+         "0..160 (thorough) x HS256/384/512; RSA moduli of 512, 1024, 2040, 2047, 2048, 2056, 3072, 4096 bits x RS/PS "
+         "algorithms; P-256/384/521 and secp256k1 x every ES algorithm; Ed25519 and Ed448; algorithm x key of another "
+         "kind altogether (EdDSA/ES256/RS256/HS256 with EC, RSA, OKP and oct keys, token signed genuinely under the "
+         "key's own algorithm); each through generate (private key), verify of the generated token and verify of a token"
+         " signed by the driver's own signer (public key), on OpenSSL and GnuTLS. Both directions are judged: below the "
+         "floor never succeeds, at or above it works. distinct = distinct cells.",
     assumptions=ASSUME_COMMON,
     level_text="The matrix is finite and enumerated completely (every oct length in thorough); TLC shows the reference "
                "outcome satisfies C09 on every cell and every cell is executed against libjwt.",
@@ -231,14 +245,17 @@ PROPS["C19"] = dict(
 PROPS["C13"] = dict(
     level="model_checking", exhaustive=True,
     stages=lambda tier, seed: [mc("seq", "MC_C13", "MC_C13_%s.cfg" % tier), gen("apiwalk", G.api_walks(300 if tier == "quick" else 20000, 60))],
-    rule="from MC_C13: all sequences of length 4 (quick) / 5 (thorough) over 13 checker elements (verify valid, bad "
+    rule=
+         "from MC_C13: all sequences of length 4 (quick) / 5 (thorough) over 13 checker elements (verify valid, bad "
          "signature, expired, no dot, header not JSON, no alg, NULL, empty, algorithm mismatch, callback failing then "
-         "restored, callback selecting another key for one call, refused setkey, error_clear) on a checker with "
-         "setkey and 5 elements on a checker whose keys only ever come from its callback, and over 7 builder elements "
-         "(generate, failing callback, callback selecting another key once, key below the floor then restored, refused "
-         "setkey, error_clear, claim change) on builders with and without setkey; "
-         "every verify/generate is also performed on a freshly created twin configured by replaying the same "
-         "configuration calls, and both results are logged. distinct = distinct sequences.",
+         "restored, callback selecting another key for one call, refused setkey, error_clear) on a checker with setkey, "
+         "5 elements on a checker whose keys only ever come from its callback, 8 elements on a checker with claim "
+         "expectations (verify matching / other / missing iss, claim_set valid and with values that are not UTF-8 - "
+         "which fail after making the claim mandatory -, claim_del, error_clear), and over 7 builder elements (generate,"
+         " failing callback, callback selecting another key once, key below the floor then restored, refused setkey, "
+         "error_clear, claim change) on builders with and without setkey; every verify/generate is also performed on a "
+         "freshly created twin configured by replaying the same configuration calls, and both results are logged. "
+         "distinct = distinct sequences.",
     assumptions=ASSUME_COMMON + ["'identically configured' = the same sequence of configuration calls replayed on a new object"],
     level_text="TLC enumerates every history up to the bound; on the specification the configuration a verdict is "
                "computed from is shown to be a function of the configuration calls alone (invariant "
@@ -252,14 +269,15 @@ PROPS["C13"] = dict(
 PROPS["C10"] = dict(
     level="model_checking", exhaustive=True,
     stages=lambda tier, seed: [mc("seq", "MC_C10", "MC_C10_%s.cfg" % tier), gen("apiwalk", G.api_walks(300 if tier == "quick" else 20000, 60))],
-    rule="from MC_C10: all sequences of 3 builder configuration calls over an alphabet of 19 (quick) / 35 (thorough) "
-         "calls - header set (typ as string and as integer, user-set alg as string and as boolean, kid) and delete, claim set (same-named iat/exp/nbf, sub, bool) and "
-         "delete, enable_iat 0/1, time_offset for exp/nbf in {-5, 0, 1, 60, 3600} and for an invalid claim, setkey "
-         "(HS256 oct, RS256 private, RS256 public-only, ES256, none, remove), setcb with two mutating programs and "
-         "removal, clock changes - with a generate after every call, plus all pairs over the full alphabet. Every "
-         "token is decoded by the driver (segments, canonical base64url, header and payload objects, signature "
-         "checked against every loaded key) and the builder's header and claim objects are read back after each "
-         "generate. distinct = distinct sequences.",
+    rule=
+         "from MC_C10: all sequences of 3 builder configuration calls over an alphabet of 19 (quick) / 35 (thorough) "
+         "calls - header set (typ as string and as integer, user-set alg as string and as boolean, kid) and delete, "
+         "claim set (same-named iat/exp/nbf, sub, bool) and delete, enable_iat 0/1, time_offset for exp/nbf in {-5, 0, "
+         "1, 60, 3600, 2^31, 2^32+5, a century} and for an invalid claim, setkey (HS256 oct, RS256 private, RS256 "
+         "public-only, ES256, none, remove), setcb with two mutating programs and removal, clock changes - with a "
+         "generate after every call, plus all pairs over the full alphabet. Every token is decoded by the driver "
+         "(segments, canonical base64url, header and payload objects, signature checked against every loaded key) and "
+         "the builder's header and claim objects are read back after each generate. distinct = distinct sequences.",
     assumptions=ASSUME_COMMON,
     level_text="Bounded-exhaustive over builder configuration histories: TLC computes what each generate must return "
                "(header with alg forced and typ defaulted, claims with iat/nbf/exp overriding, callback edits visible "
@@ -276,15 +294,16 @@ PROPS["C05"] = dict(
         mc("trees", "MC_C05", "MC_C05_%s.cfg" % tier, expand=G.c05_trees, target_ops=20000),
         mc("ecdsa", "MC_C05", "MC_C05_ec_%s.cfg" % tier, expand=G.repeat_tail(2, 500 if tier == "quick" else 20000, 250)),
     ],
-    rule="from MC_C05: (key, algorithm) pairs of every supported type x (signing provider, verifying provider) in "
+    rule=
+         "from MC_C05: (key, algorithm) pairs of every supported type x (signing provider, verifying provider) in "
          "{openssl, gnutls}^2 x header tree class x claim tree class {flat, nested depth 6, unicode (+ empty, 63-bit "
          "integers, strings to 64 KiB in thorough)} x time configuration {default, exp+nbf offsets with clock advance, "
-         "iat off}; generate, then verify on a checker holding the public form with a callback that reads header and "
-         "claims. JSON trees are seeded random per case; what the builder was given, what the token carries and what "
-         "the callback read are digested by one canonicaliser (sorted, compact) after removing alg/typ/iat/nbf/exp, "
-         "which are compared member by member. Stage 'ecdsa': 500 (quick) / 20000 (thorough) generate+verify pairs "
-         "per curve and signing provider; coverage.short_rs counts signatures whose r or s has a leading zero byte. "
-         "distinct = distinct scripts.",
+         "iat off, expiry a century / 2^31+1000 s ahead, exp claims of year 9999 and LONG_MAX}; generate, then verify on"
+         " a checker holding the public form with a callback that reads header and claims. JSON trees are seeded random "
+         "per case; what the builder was given, what the token carries and what the callback read are digested by one "
+         "canonicaliser (sorted, compact) after removing alg/typ/iat/nbf/exp, which are compared member by member. Stage"
+         " 'ecdsa': 500 (quick) / 20000 (thorough) generate+verify pairs per curve and signing provider; "
+         "coverage.short_rs counts signatures whose r or s has a leading zero byte. distinct = distinct scripts.",
     assumptions=ASSUME_COMMON + ["JSON equality is decided on SHA-256 digests of jansson's canonical dump computed by the driver for all three sides"],
     level_text="The behaviour matrix (key/alg x provider pair x tree class x time configuration) is enumerated by TLC, "
                "which also shows that on the specification every generated token is accepted by the matching checker; "
@@ -334,16 +353,17 @@ PROPS["C06"] = dict(
         mc("classes", "MC_C06", "MC_C06_%s.cfg" % tier, expand=G.replicate(1 if tier == "quick" else 20)),
         gen("fuzz", G.c06_fuzz(800 if tier == "quick" else 40000, 250), target_ops=60000),
     ],
-    rule="(classes) from MC_C06: every shape (NULL, empty, 0/1/2/3/4 dots, leading dot) x header class (object, "
+    rule=
+         "(classes) from MC_C06: every shape (NULL, empty, 0/1/2/3/4 dots, leading dot) x header class (object, "
          "whitespace, not JSON, array, scalar, string, null, not base64, length 1 mod 4, empty, {}, duplicate keys) x "
-         "payload class x 14 alg spellings (incl. missing and each non-string JSON type) x signature class, one "
-         "dimension at a time plus header x payload pairs, against key-less, HS256, RS256, ES256 and EdDSA checkers on "
-         "both providers: the class is known by construction, so rejection is judged; (fuzz) seeded byte-level "
-         "mutations (set/delete/insert of structural and high-bit bytes, truncation, duplication, padding to 64 KiB) "
-         "of tokens the library generated itself, and random byte strings of 0..64 KiB, 250 per case, under the same "
-         "eight configurations: these constrain only 'the call returns, no sanitizer report, no leak'. Recorded under "
-         "ASan+UBSan, LeakSanitizer check every 20 cases and at exit, 20 s watchdog per case. distinct = distinct "
-         "scripts (fuzz cases differ in every token).",
+         "payload class x 20 alg spellings (incl. missing, each non-string JSON type, printf conversions, family prefix,"
+         " one more character, a NUL character inside) x signature class, one dimension at a time plus header x payload "
+         "pairs, against key-less, HS256, RS256, ES256 and EdDSA checkers on both providers: the class is known by "
+         "construction, so rejection is judged; (fuzz) seeded byte-level mutations (set/delete/insert of structural and "
+         "high-bit bytes, truncation, duplication, padding to 64 KiB) of tokens the library generated itself, and random"
+         " byte strings of 0..64 KiB, 250 per case, under the same eight configurations: these constrain only 'the call "
+         "returns, no sanitizer report, no leak'. Recorded under ASan+UBSan, LeakSanitizer check every 20 cases and at "
+         "exit, 20 s watchdog per case. distinct = distinct scripts (fuzz cases differ in every token).",
     assumptions=ASSUME_COMMON + ["byte-level inputs are generated without coverage feedback; this is weaker than a coverage-guided fuzzer"],
     level_text="Exploration: the structural classes of the specification's Parse function are enumerated completely "
                "and judged (non-zero for every malformed class); memory safety, termination and leak freedom are "
@@ -359,16 +379,19 @@ PROPS["C07"] = dict(
         mc("defects", "MC_C07", "MC_C07_%s.cfg" % tier),
         gen("fuzz", G.c07_fuzz(300 if tier == "quick" else 20000, 60)),
     ],
-    rule="(defects) from MC_C07: ten valid baselines (oct, RSA private/public/PSS, P-256 private, P-384, P-521, "
+    rule=
+         "(defects) from MC_C07: ten valid baselines (oct, RSA private/public/PSS, P-256 private, P-384, P-521, "
          "secp256k1, Ed25519 private, Ed448 public) x every member of that key type and the common members (kty, alg, "
-         "use, key_ops, kid; n,e,d,p,q,dp,dq,qi; crv,x,y,d; k) x 14 classes (absent, null, integer, real, bool, "
-         "array, object, empty string, not base64url, length 1 mod 4, too short, too long, unknown string, foreign "
-         "value) - one member (quick) or two members (thorough) deviating - as a single JWK and between two good "
-         "keys in a JWKS; every entry point (load, load_strn, create, create_strn, fromfile, fromfp, create_fromfile, "
-         "create_fromfp) x document class (JWKS, JWKS with extra members, top-level array, 10 non-JSON texts, 10 JSON "
-         "documents that are not JWK objects, keys array of non-objects). (fuzz) seeded random bytes, random JSON over "
-         "JWK member names and byte-mutated JWKS texts, judged only for 'returns, no sanitizer report, no leak, each "
-         "new item errored-with-message or usable'. ASan+UBSan, leak check every 10 cases. distinct = distinct scripts.",
+         "use, key_ops, kid; n,e,d,p,q,dp,dq,qi; crv,x,y,d; k) x 14 classes (absent, null, integer, real, bool, array, "
+         "object, empty string, not base64url, length 1 mod 4, too short, too long, unknown string, foreign value) - one"
+         " member (quick) or two members (thorough) deviating - as a single JWK and between two good keys in a JWKS; "
+         "every entry point (load, load_strn, create, create_strn, fromfile, fromfp, create_fromfile, create_fromfp) x "
+         "document class (JWKS, JWKS with extra members, top-level array, 10 non-JSON texts, 10 JSON documents that are "
+         "not JWK objects, keys array of non-objects). (fuzz) 63 texts carrying printf conversions in unterminated "
+         "tokens (quoted by the parser's error text) and in member values through every entry point, seeded random "
+         "bytes, random JSON over JWK member names and byte-mutated JWKS texts (mutations insert conversions too), "
+         "judged only for 'returns, no sanitizer report, no leak, each new item errored-with-message or usable'. "
+         "ASan+UBSan, leak check every 10 cases. distinct = distinct scripts.",
     assumptions=ASSUME_COMMON,
     level_text="The JWK defect lattice (document class x key type x member x value class) is enumerated completely by "
                "TLC and executed: set error and no items for non-JSON, exactly one item per element in order, every "
@@ -407,6 +430,7 @@ PROPS["C11"] = dict(
     stages=lambda tier, seed: [
         mc("batches", "MC_C11", "MC_C11_%s.cfg" % tier, target_ops=7),
         gen("random", G.c11_random(40 if tier == "quick" else 600, 40)),
+        gen("users", G.c11_users(100 if tier == "quick" else 1500)),
     ],
     rule="On the specification (MC_C11): Dec(Enc(b)) = b, unpadded URL-safe output of the RFC length, rejection of "
          "foreign bytes ahead of '=' and of lengths 1 mod 4, canonical decoding - for all byte strings of length 1..2 "
@@ -432,16 +456,18 @@ PROPS["C11"] = dict(
 PROPS["C17"] = dict(
     level="fault_enumeration", exhaustive=True,
     stages=lambda tier, seed: [mc("scenarios", "MC_C17", "MC_C17_%s.cfg" % tier, dopts=dict(extra=("--fault",), timeout=60), target_ops=1)],
-    rule="scenarios are behaviours of the specification printed by TLC from MC_C17: loading each key type through "
+    rule=
+         "scenarios are behaviours of the specification printed by TLC from MC_C17: loading each key type through "
          "several entry points (incl. a defective key, a non-JSON text, find/free_bad/item_free), builder scenarios "
-         "(claims and headers of every value type incl. JSON merge and getters, time offsets, callbacks setting "
-         "claims or the key, HS256/RS256/ES256/EdDSA/none), checker scenarios (accepting and rejecting tokens: bad "
-         "signature, expired, missing aud, unsigned-with-key; callback reading the token and selecting the key), a "
-         "generate-verify round trip; on OpenSSL (quick; asymmetric checker scenarios also on GnuTLS) / both providers "
-         "(thorough). For each scenario the driver counts the allocation requests N made by libjwt and jansson through "
-         "jwt_set_alloc's allocator inside library calls and re-runs it once per k in 0..N-1 with request k returning "
-         "NULL, each in a forked child under ASan/UBSan, stopping after the operation in which the fault fired and "
-         "then freeing everything. evaluations = judged events; coverage.fault_runs = number of (scenario, k) runs; "
+         "(claims and headers of every value type incl. JSON merge and getters, time offsets, callbacks setting claims "
+         "or the key, HS256/RS256/ES256/EdDSA/none), checker scenarios (accepting and rejecting tokens: bad signature, "
+         "expired, missing aud, unsigned-with-key; callback reading the token and selecting the key; expired / not-yet-"
+         "valid / wrong-issuer tokens whose claims the callback rewrites into acceptable ones), a generate-verify round "
+         "trip; on OpenSSL (quick; asymmetric checker scenarios also on GnuTLS) / both providers (thorough). For each "
+         "scenario the driver counts the allocation requests N made by libjwt and jansson through jwt_set_alloc's "
+         "allocator inside library calls and re-runs it once per k in 0..N-1 with request k returning NULL, each in a "
+         "forked child under ASan/UBSan, stopping after the operation in which the fault fired and then freeing "
+         "everything. evaluations = judged events; coverage.fault_runs = number of (scenario, k) runs; "
          "distinct_nontrivial = distinct scenarios.",
     assumptions=ASSUME_COMMON + ["only allocations routed through jwt_set_alloc (libjwt and jansson) are failed; OpenSSL/GnuTLS internal allocations are not"],
     level_text="Exhaustive over the fault position k for every scenario: each operation of a faulted run must either "
@@ -480,17 +506,22 @@ PROPS["C20"] = dict(
     stages=lambda tier, seed: [proof("inductive", "ToolsInd", [("Init", "IndInv", 0, "Next"), ("IndInit", "IndInv", 1, "Next"),
                                                                  ("IndInit", "ExitOK", 0, "Next")]),
                                mc("cells", "MC_C20", "MC_C20_%s.cfg" % tier, dopts=dict(runner="tools"), target_ops=12)],
-    rule="On the specification (Tools.tla via MC_C20): the jwt-verify machine over token lists good^g bad^b in three "
-         "orders for g in {0,1,3} and b in {0,1,2,255,256,257,512} (quick) / every b in 0..520 (thorough): exit status "
-         "zero iff every token verified, failure counter exact. Against the tools built from the working tree: "
-         "jwt-verify over the same counts through argv and stdin in two orders (tokens made by jwt-generate; failing "
-         "ones by damaging the signature); jwt-generate | jwt-verify round trips for ten key/alg pairs (key with and "
-         "without alg attribute, so that -a/--algorithm is exercised) x short/long option spelling on either side x "
-         "--json x --no-iat, with -c/--claim of every type; key2jwk on every fixture key file (RSA 512..4096, every "
-         "curve incl. twelve EC keys whose x, y or d has a leading zero byte, Ed25519, Ed448; private and public PEM; "
-         "oct files of 32..512 bytes): one key, imported by the library without error, same public and private "
-         "components (driver projection), fixed-width EC x/y/d; jwk2key of that JWKS, and the file it writes converted "
-         "again must still be the same key; key2jwk with several files in one invocation (every order of an oct, an RSA, an EC and an Ed25519 file, all pairs incl. repeated types): the i-th JWK must denote the i-th file's key. distinct = distinct cells.",
+    rule=
+         "On the specification: Apalache discharges the inductive invariant of spec/apalache/ToolsInd.tla (exit status "
+         "zero iff no token failed, token lists of any length); TLC (Tools.tla via MC_C20): the jwt-verify machine over "
+         "token lists good^g bad^b in three orders for g in {0,1,3} and b in {0,1,2,255,256,257,512} (quick) / every b "
+         "in 0..520 (thorough): exit status zero iff every token verified, failure counter exact. Against the tools "
+         "built from the working tree: jwt-verify over the same counts through argv and stdin in two orders (tokens made"
+         " by jwt-generate; failing ones by damaging the signature), plus 1, 3 and 600 good tokens with 0 or 2 bad ones "
+         "in each output mode (plain, -v, -v -p CMD; short and long spellings) under the usual 1024-descriptor limit; "
+         "jwt-generate | jwt-verify round trips for ten key/alg pairs (key with and without alg attribute, so that "
+         "-a/--algorithm is exercised) x short/long option spelling on either side x --json x --no-iat, with -c/--claim "
+         "of every type; key2jwk on every fixture key file (RSA 512..4096, every curve incl. twelve EC keys whose x, y "
+         "or d has a leading zero byte, Ed25519, Ed448; private and public PEM; oct files of 32..512 bytes): one key, "
+         "imported by the library without error, same public and private components (driver projection), fixed-width EC "
+         "x/y/d; jwk2key of that JWKS, and the file it writes converted again must still be the same key; key2jwk with "
+         "several files in one invocation (every order of an oct, an RSA, an EC and an Ed25519 file, all pairs incl. "
+         "repeated types): the i-th JWK must denote the i-th file's key. distinct = distinct cells.",
     assumptions=ASSUME_COMMON + ["tool output is decoded by the Python runner (bin/vtools.py), which logs and never judges; key identity is decided by the driver's projection against the key it exported"],
     level_text="The exit-status relation is model-checked on the tool machine for every count up to 520; every cell "
                "is executed against the real tools and the logged exit statuses, token shapes, member widths and key "
